@@ -16,15 +16,66 @@ class Ctor:
         self.wr_calls = wr_calls        # jls_raw_wr events on X.hdr
         self.tag = None
         self.tag_expr = None
+        self.helper = None              # name of the constructor helper when the header is filled in by a callee
 
     @property
     def hdr(self):
         return Path(tuple(self.obj) + ('.hdr',))
 
 
+def ctor_helpers(P):
+    """Functions that initialise a jls_core_chunk_s handed in by pointer (X->offset = jls_raw_chunk_tell(), header fields)
+    and leave the write to their caller:  name -> (index of the chunk parameter, {header field: parameter index or None})."""
+    if getattr(P, '_ctor_helpers', None) is not None:
+        return P._ctor_helpers
+    from .. import df
+    out = {}
+    for fn in P.all_functions():
+        if any(True for _ in fn.calls('jls_raw_wr')):
+            continue
+        names = [q['name'] for q in fn.params]
+        for ev in fn.stores():
+            lhs, rhs, o = ev.store_parts()
+            l0 = strip_casts(lhs)
+            if rhs is None or o != '=' or l0.get('op') != 'member' or l0.get('field') != 'offset' or l0.get('rec') != 'jls_core_chunk_s':
+                continue
+            if not df.derives(fn, rhs, lambda n: n.get('op') == 'call' and n.get('callee') == 'jls_raw_chunk_tell', ev.block, ev.idx):
+                continue
+            base = strip_casts(l0['k'][0])
+            if base.get('op') == 'ref' and base.get('rk') == 'param' and base['name'] in names:
+                fields = {}
+                for s2 in fn.stores():
+                    l2, r2, o2 = s2.store_parts()
+                    l2 = strip_casts(l2)
+                    if l2.get('op') == 'member' and l2.get('rec') == HDR_REC and r2 is not None:
+                        r0 = strip_casts(r2)
+                        fields[l2['field']] = names.index(r0['name']) if (r0.get('op') == 'ref' and r0.get('name') in names) else None
+                out[fn.name] = (names.index(base['name']), fields)
+    P._ctor_helpers = out
+    return out
+
+
 def constructors(P):
-    """All chunk constructors of the program."""
+    """All chunk constructors of the program (member-wise in a function, or through a constructor helper)."""
     out = []
+    from ..ir import const_of as _const_of
+    for hname, (qi, fields) in ctor_helpers(P).items():
+        for fn, call in P.callers().get(hname, []):
+            if qi >= len(call.args):
+                continue
+            obj = fn.path(call.args[qi])
+            if obj is None:
+                continue
+            hdrp = tuple(obj) + ('.hdr',)
+            wr = [c for c in fn.calls('jls_raw_wr') if len(c.args) >= 2 and fn.path(c.args[1]) is not None
+                  and tuple(fn.path(c.args[1])) == hdrp]
+            c = Ctor(fn, Path(tuple(obj)), call, wr)
+            c.helper = hname
+            ti = fields.get('tag')
+            if ti is not None and ti < len(call.args):
+                c.tag_expr = call.args[ti]
+                c.tag = _const_of(call.args[ti])
+            out.append(c)
     for fn in P.all_functions():
         for ev in fn.stores():
             lhs, rhs, o = ev.store_parts()
@@ -41,6 +92,8 @@ def constructors(P):
             hdrp = tuple(obj) + ('.hdr',)
             wr = [c for c in fn.calls('jls_raw_wr') if len(c.args) >= 2 and fn.path(c.args[1]) is not None
                   and tuple(fn.path(c.args[1])) == hdrp]
+            if fn.name in ctor_helpers(P):
+                continue          # the helper itself: its call sites are the constructors
             c = Ctor(fn, obj, ev, wr)
             for s in fn.stores():
                 l2, r2, o2 = s.store_parts()
